@@ -464,7 +464,35 @@ def unit_torn_down_flag(eng, tier, prop):
                 r = p.outcome[1]
                 c = r.fields.get((None, i_vid))
                 u.must_be_true("C09.no_verify_in_drop()-clears-flag", c is not None and isinstance(c.val, Bool) and z3.is_false(z3.simplify(c.val.e)))
+                # ... and touches nothing else (in particular not the delegation helper, which owns lent values: C13)
+                written = sorted(k[1] for k, cc in r.fields.items() if k[1] != i_vid and not isinstance(cc.val, Opaque) and not (isinstance(cc.val, Adt) and cc.val.lazy is not None)
+                                 and not (isinstance(cc.val, (Bool, Int)) and str(cc.val.e) == f"u.{k[1]}"))
+                drops = [e for e in p.trace if e[0] == "drop"]
+                u.must_be_true("C13.no_verify_in_drop()-changes-only-the-flag", written == [] and not drops and not events(p, "oncecell_take"), {"fields_written": written, "drops": [e[1:] for e in drops][:3]})
         u.witness("no_verify_in_drop(): both outcomes", [z3.BoolVal({p.outcome[0] for p in paths} >= {"panic", "return"})])
+        # Termination::report(self): always the verdict of teardown_report, whatever the flags (C09: FAILURE exactly when
+        # verify() would have failed)
+        rxr = re.compile(r"^teardown_report$|^teardown::teardown_report$")
+
+        def hr(call):
+            call.m.event("teardown_report")
+            a = Adt("ExitCode", None)
+            a.tag = ("the_exit_code",)
+            return a
+        eng.handlers.insert(0, (rxr, hr))
+        try:
+            rp_ = [g for g in eng.fns if g.short == "report" and g.params and g.params[0][1].replace(" ", "") == "Unimock"]
+            u.must_be_true("C09.report-impl-found", len(rp_) == 1, {"n": len(rp_)})
+            if len(rp_) == 1:
+                paths = u.explore(rp_[0], [lazy_adt("Unimock", "u")])
+                for p in paths:
+                    if p.outcome[0] == "return":
+                        r = p.outcome[1]
+                        u.must_be_true("C09.report()-is-the-verdict-of-teardown_report-on-every-path", len(events(p, "teardown_report")) == 1 and isinstance(r, Adt) and r.tag == ("the_exit_code",), {"calls": len(events(p, "teardown_report")), "returns": repr(r)[:60]})
+                    elif p.outcome[0] == "panic":
+                        u.must_be_true("C09.report()-never-panics-itself", False, {"site": p.outcome[1]})
+        finally:
+            eng.handlers.remove((rxr, hr))
         # Clone::clone
         c = eng.find_fn(r"^<impl at src/lib\.rs:\d+:1: \d+:23>::clone$")
         ref, uni, st = build_unimock(eng, 0)
@@ -1999,6 +2027,14 @@ def unit_schedules(eng, tier, prop):
         inner = [f for f in eng.fns if f.raw_name.endswith("into_return_once::{closure#0}::{closure#0}") and f.module.startswith("owning::")]
         cal2 = [c for f in inner for c, _ in all_callees(eng, f)]
         u.must_be_true("C12.locked-block-is-exactly-one-take", len(cal2) == 1 and cal2[0].startswith("Option::<") and cal2[0].endswith("::take"), {"callees": cal2})
+        # the repeatable path: the stored original is only READ (cloned) per request - never taken out, swapped or locked away
+        rep = [f for f in eng.fns if re.search(r"into_return::\{closure#0\}", f.raw_name) and f.module.startswith("owning::")]
+        u.must_be_true("C12.repeatable-closure-found", len(rep) >= 1, {"n": len(rep)})
+        for f in rep:
+            sub = [g for g in eng.fns if g.raw_name.startswith(f.raw_name + "::")]
+            cal3 = [c for g in [f] + sub for c, _ in all_callees(eng, g)]
+            bad3 = [c for c in cal3 if not re.search(r"as Clone>::clone$|^Option::<.*>::Some$|^<.* as Deref>::deref$", c)]
+            u.must_be_true("C12.repeatable-value-is-only-cloned-never-moved-out", not bad3 and any(c.endswith("as Clone>::clone") for c in cal3), {"callees": cal3[:6]})
         # schedule model of R racing requests on one atomic take: exactly min(1, R) deliveries
         for R in (2, 3, 4):
             order = [z3.Int(f"req{i}") for i in range(R)]
@@ -2104,6 +2140,46 @@ def unit_delegators(eng, tier, prop):
                         wraps = len(inner) == 1 and isinstance(inner[0], Adt) and inner[0].lazy is not None and inner[0].lazy.name == "clone_of_the_instance"
                         u.must_be_true(f"C15.{acc}-fresh-helper-wraps-one-clone-of-this-instance", wraps and clones == [("unimock_clone", "the_instance")], {"returned": repr(tgt)[:80], "clones": clones})
             u.must_be_true(f"C15.{acc}-explored-with-and-without-an-existing-helper", seen == {True, False}, {"seen": sorted(seen)})
+        # Pin<&mut Self>: the helper lives in the same cell; creating / finding it leaves the instance's own lent values alone
+        pf = next((v for k, v in by.items() if k[0] == "to_delegator" and k[1].replace(" ", "").startswith("Pin<&")), None)
+        u.must_be_true("C15.Pin-delegator-impl-found", pf is not None)
+        if pf is not None:
+            i_vc = field_index(eng, "Unimock", "value_chain")
+            for filled in (False, True):
+                inst = lazy_adt("Unimock", "the_instance")
+                helper = Adt("DefaultImplDelegator", None)
+                helper.tag = ("existing_helper",)
+                opt = eng.mk_enum("Option", "Some", Ref(Cell(helper, None, "existing_helper"), "box")) if filled else eng.mk_enum("Option", "None")
+                oc = Adt("OnceCell", None)
+                oc.fields[("cell", 0)] = Cell(opt, None, "once")
+                inst.fields[(None, i_cell)] = Cell(oc, None, "default_impl_delegator_cell")
+                vc = Adt("ValueChain", None)
+                vc.tag = ("the_value_chain",)
+                inst.fields[(None, i_vc)] = Cell(vc, None, "value_chain")
+                pin = Adt("Pin", None)
+                pin.fields[(None, 0)] = Cell(Ref(Cell(inst, None, "self")), None, "pointer")
+                paths = u.explore(pf, [pin], note=f"[Pin to_delegator, helper {'present' if filled else 'absent'}]")
+                for p in paths:
+                    if p.outcome[0] != "return":
+                        if p.outcome[0] == "panic":
+                            u.must_be_true("C15.Pin-to_delegator-never-panics", False, {"site": p.outcome[1]})
+                        continue
+                    now = inst.fields[(None, i_vc)].val
+                    frame_inst = None
+                    # the explored machine works on a copy: find the instance through the returned helper's cell is not possible;
+                    # use the events instead: nothing may take / replace / drop the instance's value chain
+                    touched = [e for e in p.trace if (e[0] == "drop" and "ValueChain" in str(e[3])) or (e[0] in ("mem_take", "mem_replace", "mem_swap") and "value_chain" in str(e))]
+                    u.must_be_true("C13.Pin-delegation-leaves-the-instances-lent-values-alone", not touched, {"events": [e[:4] for e in touched][:3], "helper_present": filled})
+                    if filled:
+                        r = p.outcome[1]
+                        tgt = r
+                        hops = 0
+                        while isinstance(tgt, (Ref,)) or (isinstance(tgt, Adt) and tgt.ty == "Pin"):
+                            tgt = tgt.cell.val if isinstance(tgt, Ref) else next(iter(tgt.fields.values())).val
+                            hops += 1
+                            if hops > 6:
+                                break
+                        u.must_be_true("C13.Pin-delegation-reuses-the-existing-helper", isinstance(tgt, Adt) and tgt.tag == ("existing_helper",), {"returned": repr(tgt)[:80]})
         # Rc / Arc receivers: the helper is a clone sharing the state, or - when the receiver is the last Rc - takes over the
         # instance itself. The caller's instance must not be RELEASED before the default body has run: dropping the last
         # Rc<Unimock> while only a clone lives in the helper tears the original down with a clone alive (C09 makes that a
@@ -2561,6 +2637,19 @@ def unit_output_containers(eng, tier, prop):
             return eng.mk_enum("Option", "Some", o)
         return eng.mk_enum("Option", "None")
     eng.handlers.insert(0, (rx, h))
+    # C08 / C12: "no value available" is reported to the caller as None (which becomes a recorded MockError); an output
+    # implementation never panics by itself (unwrap / expect / arithmetic or bounds assertion)
+    sites = []
+    outs = [g for g in eng.fns if g.short == "output" and (g.module or "").startswith(("output::", "shallow::", "deep::", "owning::", "lending::", "static_ref::")) or (g.short == "output" and "src/output" in (g.impl_span[0] if g.impl_span else ""))]
+    for g in outs:
+        for callee, _ in all_callees(eng, g):
+            if re.search(r"panic_fmt|begin_panic|panic_display|::panic$|unwrap_failed|expect_failed|Option::<.*>::expect|Option::<.*>::unwrap$|Result::<.*>::unwrap$|Result::<.*>::expect", callee):
+                sites.append((g.raw_name[-60:], callee[:50]))
+        for b in g.blocks.values():
+            if not b.cleanup and (b.term or "").startswith("assert(") and ("attempt to" in b.term or "index out of bounds" in b.term):
+                sites.append((g.raw_name[-60:], b.term[:60]))
+    u.must_be_true("C08.output-impls-found", len(outs) >= 8, {"n": len(outs)})
+    u.must_be_true("C08.output-impls-have-no-direct-panic-site", not sites, {"sites": sites[:4]})
 
     def leaves_in(val, acc):
         if isinstance(val, Adt):
